@@ -24,16 +24,19 @@ LEVEL = "proof"
 COQ_TARGETS = ["C20/Model.vo", "C20/Proofs.vo", "C20/Exec.vo"]
 COQ_DIRS = ["C20"]
 PROPERTIES_FILE = "Properties/C20.v"
-ALLOWED_AXIOMS = {
-    "ClassicalDedekindReals.sig_not_dec", "ClassicalDedekindReals.sig_forall_dec",
-    "FunctionalExtensionality.functional_extensionality_dep", "Classical_Prop.classic",
-}
+# the standard library's axiomatisation of the real numbers (Reals / Coquelicot); Print Assumptions prints them without,
+# coqchk with the Coq. prefix, and the runner also accepts the last path component
+_REAL_AXIOMS = ["Reals.ClassicalDedekindReals.sig_not_dec", "Reals.ClassicalDedekindReals.sig_forall_dec",
+                "Logic.FunctionalExtensionality.functional_extensionality_dep", "Logic.Classical_Prop.classic"]
+ALLOWED_AXIOMS = set()
+for _a in _REAL_AXIOMS:
+    ALLOWED_AXIOMS |= {"Coq." + _a, _a.split(".", 1)[1], _a.split(".")[-1]}
 RULE = ("case families: train = (symmetric matrix A of 2-4 modes from {0/1 graph, weighted with ties, signed, self-loops, "
         "disconnected, rank one}, n_mean, Exp or ExpFeatures embedding with a 1-4 column feature matrix, parameter vector incl. "
         "zeros/negatives, threshold flag, data set of photon/click patterns, cost function h); sim = (graph of 2-4 nodes, n_mean, "
         "loss, photon number, max count); dyn = (frequencies, time(s), orthogonal U_l, Gaussian or Fock input); vib = (w, w', "
         "Duschinsky matrix, displacement, temperature); dus = (normal modes L_i, L_f, geometries, masses, w_f); marg = (Gaussian "
-        "state, n_max, hbar); bad = malformed arguments.  Non-trivial = at least 2 modes and, per family: train: A(theta) has a "
+        "state, n_max, hbar); smp = (sample_fock / sample_tmsv / sample_coherent arguments, valid or malformed); bad = malformed arguments.  Non-trivial = at least 2 modes and, per family: train: A(theta) has a "
         "non-zero off-diagonal entry and theta is not all zero; sim: loss > 0 or an orbit with a repeated part; dyn: t != 0 and "
         "non-degenerate frequencies; vib: w != w' ; dus: L_i != L_f; marg: correlated modes")
 TRUSTED_BASE = [
@@ -61,7 +64,7 @@ MANIFEST_TEXT = (
     "reported costs in PNR mode for all feature matrices, data sets, parameters, given the GBS score identity at the point as an "
     "explicit hypothesis), C20_score_identity_product (that hypothesis holds for product states), C20_dynamics_passive/_modes/_group "
     "(TimeEvolution conserves every mode's photon number for all n, w, t, states; acts once on each mode; angles additive in t), "
-    "C20_vibronic_gain_is_inverse, C20_orbit_click_ok, C20_sample_length; _refuted theorems for the three recorded findings. "
+    "C20_vibronic_gain_is_inverse, C20_orbit_click_ok and C20_sample_length (about the repaired code; *_old_refuted for the code before the fixes); C20_vibronic_gain_refuted for the open finding vibronic:squeeze-sign. "
     "_partial: the score identity for general A (C20_score_identity_statement), normalisation of probabilities, state/moment "
     "agreement, Duschinsky round trip and SVD are outside the theorems and covered by the implementation-level search "
     "(finite differences, closed-form reference states, differential torontonian-vs-hafnian, cross-module, Doktorov reference)."
@@ -291,7 +294,27 @@ def gen_bad(rng):
     return {"family": "bad", "kind": kind, "n": rng.choice([2, 3]), "x": round(rng.uniform(0.1, 1.0), 3)}
 
 
-GENS = {"train": gen_train, "sim": gen_sim, "dyn": gen_dyn, "vib": gen_vib, "dus": gen_dus, "marg": gen_marg, "bad": gen_bad}
+def gen_smp(rng):
+    kind = rng.choice(["fock", "tmsv", "coherent"])
+    n = rng.choice([1, 2, 2])
+    bad = rng.choice([None, None, None, "complex-Ul", "n_samples", "length", "negative", "cutoff"])
+    if bad in ("negative", "cutoff") and kind != "fock":
+        bad = "length"
+    case = {"family": "smp", "kind": kind, "bad": bad, "n": n, "Ul": _lst(_orth(rng, n)),
+            "w": [round(rng.uniform(300, 4000), 2) for _ in range(n)], "t": round(rng.uniform(0, 40), 3),
+            "loss": rng.choice([0.0, 0.0, 1.0, 0.4]), "n_samples": rng.choice([1, 2, 3]), "np_seed": rng.randrange(10 ** 6)}
+    if kind == "fock":
+        st = [rng.choice([0, 1, 1, 2]) for _ in range(n)]
+        case["input"] = st
+        case["cutoff"] = sum(st) + rng.choice([1, 2])
+    elif kind == "tmsv":
+        case["input"] = [[rng.choice([0.0, 0.3, 0.5]), round(rng.uniform(-3, 3), 2)] for _ in range(n)]
+    else:
+        case["input"] = [[rng.choice([0.0, 0.4, 0.8]), round(rng.uniform(-3, 3), 2)] for _ in range(n)]
+    return case
+
+
+GENS = {"smp": gen_smp, "train": gen_train, "sim": gen_sim, "dyn": gen_dyn, "vib": gen_vib, "dus": gen_dus, "marg": gen_marg, "bad": gen_bad}
 
 
 def nontrivial(case):
@@ -313,6 +336,8 @@ def nontrivial(case):
         return len(case["orbit"]) >= case["modes"]
     if f == "dim":
         return case["d"] != case["len"]
+    if f == "smp":
+        return case["n"] >= 2 and not case["bad"] and case["loss"] in (0.0, 1.0)
     return False
 
 
@@ -790,7 +815,58 @@ def check_bad(case):
     return []
 
 
-CHECKS = {"train": check_train, "sim": check_sim, "dyn": check_dyn, "vib": check_vib, "dus": check_dus, "marg": check_marg, "bad": check_bad}
+def check_smp(case):
+    """dynamics.sample_fock / sample_tmsv / sample_coherent: argument validation, shape of the result, and photon-number
+    conservation of the sampled dynamics (no loss: Fock input keeps its photon number, two-mode squeezed pairs keep equal
+    totals in the two halves; total loss: no photons)"""
+    kind, bad, n = case["kind"], case["bad"], case["n"]
+    Ul, w, t, ns, loss = np.array(case["Ul"]), np.array(case["w"]), case["t"], case["n_samples"], case["loss"]
+    inp = [list(x) if isinstance(x, list) else x for x in case["input"]]
+    cutoff = case.get("cutoff")
+    if bad == "complex-Ul":
+        Ul = Ul.astype(complex)
+        Ul[0, 0] = Ul[0, 0] + 0.5j
+    elif bad == "n_samples":
+        ns = 0
+    elif bad == "length":
+        inp = inp + [inp[0]]
+    elif bad == "negative":
+        inp = [-1] + inp[1:]
+    elif bad == "cutoff":
+        cutoff = max(max(inp), 1)
+        inp = [cutoff] + inp[1:]
+    np.random.seed(case["np_seed"])
+    try:
+        if kind == "fock":
+            smp = dynamics.sample_fock(inp, t, Ul, w, ns, cutoff, loss)
+        elif kind == "tmsv":
+            smp = dynamics.sample_tmsv(inp, t, Ul, w, ns, loss)
+        else:
+            smp = dynamics.sample_coherent(inp, t, Ul, w, ns, loss)
+    except ValueError as e:
+        if bad:
+            return []
+        return [("dynamics:sample_%s:raises:ValueError" % kind, "valid arguments rejected: %r" % (e,))]
+    except Exception as e:  # noqa: BLE001
+        return [("dynamics:sample_%s:raises:%s" % (kind, type(e).__name__), "%s arguments (%s) raised %r instead of %s" % ("malformed" if bad else "valid", bad, e, "ValueError" if bad else "returning samples"))]
+    if bad:
+        return [("malformed:sample_%s:%s:accepted" % (kind, bad), "sample_%s accepted malformed arguments (%s)" % (kind, bad))]
+    out = []
+    width = 2 * n if kind == "tmsv" else n
+    if len(smp) != ns or any(len(x) != width for x in smp) or any(v < 0 or int(v) != v for x in smp for v in x):
+        return [("dynamics:sample_%s:shape" % kind, "expected %d samples of %d non-negative integers, got %r" % (ns, width, smp))]
+    if loss == 1.0 and any(any(x) for x in smp):
+        out.append(("dynamics:sample_%s:total-loss" % kind, "loss = 1 but photons were detected: %r" % (smp,)))
+    if loss == 0.0 and kind == "fock" and any(sum(x) != sum(inp) for x in smp):
+        out.append(("dynamics:sample_fock:photon-number", "input %r (%d photons), samples %r" % (inp, sum(inp), smp)))
+    if loss == 0.0 and kind == "tmsv" and any(sum(x[:n]) != sum(x[n:]) for x in smp):
+        out.append(("dynamics:sample_tmsv:photon-number", "the evolved and the idle halves of two-mode squeezed pairs have different totals: %r" % (smp,)))
+    if loss > 0 and kind == "fock" and any(sum(x) > sum(inp) for x in smp):
+        out.append(("dynamics:sample_fock:photon-number", "loss created photons: input %r, samples %r" % (inp, smp)))
+    return out
+
+
+CHECKS = {"smp": check_smp, "train": check_train, "sim": check_sim, "dyn": check_dyn, "vib": check_vib, "dus": check_dus, "marg": check_marg, "bad": check_bad}
 
 
 def run_check(case):
@@ -941,13 +1017,15 @@ def gen_orb(rng):
 
 def corr_orb(case):
     g = nx.complete_graph(case["modes"])
+    longer = len(case["orbit"]) > case["modes"]
     try:
-        similarity.prob_orbit_exact(g, list(case["orbit"]), n_mean=case["n_mean"])
+        p = similarity.prob_orbit_exact(g, list(case["orbit"]), n_mean=case["n_mean"])
         ok = True
     except ValueError:
-        ok = False
-    term = "(orbit_ok %s %d, 0%%float)" % (cnats(case["orbit"]), case["modes"])
-    return term, [("prob_orbit_exact accepts the orbit", ok, 0, "exact"), ("pad", 0.0, 1e-12, None)]
+        p, ok = None, False
+    term = "(orbit_accepts %s %d, orbit_early_zero %s %d)" % (cnats(case["orbit"]), case["modes"], cnats(case["orbit"]), case["modes"])
+    return term, [("prob_orbit_exact accepts the orbit", ok, 0, "exact"),
+                  ("prob_orbit_exact returns 0.0 for an orbit longer than the mode count", bool(longer and ok and p == 0.0), 0, "exact")]
 
 
 def check_orb(case):
@@ -956,7 +1034,7 @@ def check_orb(case):
         p = similarity.prob_orbit_exact(g, list(case["orbit"]), n_mean=case["n_mean"])
     except ValueError as e:
         if len(case["orbit"]) > case["modes"]:
-            return [("similarity:event-orbit-longer-than-modes", "prob_orbit_exact(%r) on %d modes raises %r instead of returning 0" % (case["orbit"], case["modes"], e))]
+            return [("similarity:orbit-longer-than-modes", "prob_orbit_exact(%r) on %d modes raises %r instead of returning 0" % (case["orbit"], case["modes"], e))]
         return [("similarity:orbit-raises:ValueError", "prob_orbit_exact(%r) on %d modes raised %r" % (case["orbit"], case["modes"], e))]
     if len(case["orbit"]) > case["modes"] and abs(p) > 1e-12:
         return [("similarity:orbit-prob", "an orbit with more parts than modes has probability %r" % (p,))]
@@ -1104,11 +1182,11 @@ def search(ctx):
         for sig, what in run_check(case):
             ctx.counterexample(sig, what, {"case": case})
     plan = [("train", ctx.budget(60, 450)), ("sim", ctx.budget(25, 200)), ("dyn", ctx.budget(20, 150)), ("vib", ctx.budget(20, 150)),
-            ("dus", ctx.budget(25, 300)), ("marg", ctx.budget(20, 150)), ("bad", ctx.budget(16, 60))]
+            ("dus", ctx.budget(25, 300)), ("marg", ctx.budget(20, 150)), ("bad", ctx.budget(16, 60)), ("smp", ctx.budget(24, 160))]
     for fam, k in plan:
         for _ in range(k):
             case = GENS[fam](rng, big=not ctx.quick) if fam == "train" else GENS[fam](rng)
-            ctx.case(case, nontrivial=nontrivial(case), bucket=fam + ("-" + case["kind"] if fam == "bad" else ""))
+            ctx.case(case, nontrivial=nontrivial(case), bucket=fam + ("-" + case["kind"] if fam in ("bad", "smp") else ""))
             for sig, what in run_check(case):
                 ctx.counterexample(sig, what, {"case": case})
 
